@@ -639,6 +639,14 @@ func (b *Builder) V1Revise() bool {
 		rev.WindowEnd = rev.WindowStart + uint64(rapid.IntRange(1, 4).Draw(t, "revWe"))
 	}
 	l := b.W.Locks[fc.UnlockHash]
+	if rapid.IntRange(0, 4).Draw(t, "revHandOver") == 0 {
+		// the parties hand the contract over to other keys: revealed and signed are the current conditions, the
+		// revision commits to the new ones
+		if nl := b.drawLock("revHandOverTo", true); nl.UC != nil && nl.Address() != fc.UnlockHash {
+			rev.UnlockHash = nl.Address()
+			b.label("v1-revise-hands-contract-over")
+		}
+	}
 	var txn types.Transaction
 	txn.FileContractRevisions = []types.FileContractRevision{{ParentID: e.ID, UnlockConditions: *l.UC, FileContract: rev}}
 	c := b.Exp.contract(e.ID, false)
